@@ -92,6 +92,8 @@ def oracle_load_equality(ck, rng):
         b = int(rng.integers(1, 5))
         if i % 8 == 2:
             b = 2 + (i // 8) % 2          # (directed low-face case below: a bin size > 1)
+        if i % 8 == 5:
+            b = 2 + (i // 8) % 3          # (metre-scale case below: a bin size > 1)
         S = tuple(int(x) for x in rng.integers(1, 5, size=3))
         dims = tuple(int(x) for x in rng.integers(10 * b, 10 * b + b + 3, size=3))
         # tomogram voxel type: float, or a narrow integer type whose block sums exceed its range
@@ -100,6 +102,8 @@ def oracle_load_equality(ck, rng):
         img = rng.integers(hi // 2, hi, size=dims).astype(dt)
         corner_safe = bool(i % 3 == 1) or bool(i % 3 == 0 and (i // 3) % 2 == 0)      # single and batch loaders, with and without
         scale = float(rng.choice([1.0, 0.5, 2.0]))
+        if i % 8 == 5:
+            scale = 2.0 ** -32         # lengths given in metres (0.23 nm voxels): every length in the loader is tiny, none is negligible
         # binned-grid position c' (integer for odd S, half-integer for even S) -> original position c = b c' + (b-1)/2
         cb = np.array([rng.integers(4, 6) + ((s - 1) / 2 - (s - 1) // 2) for s in S], dtype=float)
         if i % 4 == 2:
@@ -141,6 +145,28 @@ def oracle_load_equality(ck, rng):
             big = ld.load(j, output_shape=tuple(b * s for s in S))
             want = bin_image(big, b)
             ok = ok and got.shape == tuple(S) and np.array_equal(got, want)
+        if kind == "batch" and ok:
+            # the per-tomogram loaders of the binned batch describe the same binned data: scale, options and sub-volumes
+            try:
+                iids = lb.molecules.features["image-id"].to_list()
+                for j, iid in enumerate(iids):
+                    sub = lb.loaders[int(iid)]
+                    row = [k_ for k_, x_ in enumerate(iids) if x_ == iid].index(j)
+                    if abs(sub.scale - lb.scale) > 1e-12 * lb.scale or sub.order != lb.order or sub.corner_safe != lb.corner_safe or tuple(sub.output_shape) != tuple(lb.output_shape):
+                        ok = False
+                        opt_detail = f"binned.loaders[{iid}] has scale {sub.scale} (batch: {lb.scale}), order {sub.order}, corner_safe {sub.corner_safe}"
+                        ck.violation(what=opt_detail, inp={"kind": kind, "binsize": b, "scale": scale}, key={"site": "binned-loaders-accessor", "binsize": b},
+                                     oracle="binned_load_equals_blocksum")
+                        break
+                    if not np.array_equal(np.asarray(sub.load(row)), np.asarray(lb.load(j))):
+                        ok = False
+                        ck.violation(what=f"binned.loaders[{iid}].load({row}) differs from the sub-volume the binned batch loads for the same molecule",
+                                     inp={"kind": kind, "binsize": b, "scale": scale}, key={"site": "binned-loaders-accessor", "binsize": b}, oracle="binned_load_equals_blocksum")
+                        break
+                ok = True if not ok else ok
+            except Exception as e:  # noqa
+                ck.violation(what=f"binned.loaders[id] raised {type(e).__name__}: {e}", inp={"kind": kind, "binsize": b}, key={"site": "binned-loaders-accessor", "binsize": b},
+                             oracle="binned_load_equals_blocksum")
         ck.oracle_count("binned_load_equals_blocksum", 1, 1)
         if not ok:
             ck.violation(what="binned.load(i) differs from the block-sum of the b-times larger subtomogram of the original loader",
